@@ -1,6 +1,7 @@
 (* C20 - executable checkers over the implementation's observations.
    Module U: canary.UniqueSet, every operation sequence (observation trees).
    Module S: portscan events per detector tick for a burst of probes. *)
+From Coq Require Uint63.
 From HT Require Import Common.Bytes C20.Model.
 Open Scope N_scope.
 
@@ -22,7 +23,8 @@ Module U.
 
 (* observation tree: the packed observation of a sequence and, per next operation (in
    operation order), the subtree of the extended sequence *)
-Inductive otree := T (o : N) (ch : list otree).
+Inductive otree := T (o : Uint63.int) (ch : list otree).
+Arguments T o%uint63 ch%list.
 
 Record ucase := mkU { u_id : N; u_nops : N; u_prefix : list N; u_tree : otree }.
 
@@ -113,11 +115,12 @@ Definition judge (path : list N) (po : N) (op : N) (co : N) : list N :=
    else (if res_ok then [] else [if big then SIG_EACH_VISIT else SIG_EACH_VISIT_SMALL]) ++
         (if st_ok then [] else [if big then SIG_EACH_LEFT else SIG_EACH_LEFT_SMALL])).
 
-Definition t_obs (t : otree) : N := match t with T o _ => o end.
+Definition t_obs (t : otree) : N := match t with T o _ => Z.to_N (Uint63.to_Z o) end.
 
 Fixpoint walk (nops : N) (path : list N) (ms : list elt) (t : otree) {struct t} : list N :=
   match t with
-  | T o ch =>
+  | T o63 ch =>
+      let o := Z.to_N (Uint63.to_Z o63) in
       (match ch with
        | [] => []
        | _ => if N.of_nat (length ch) =? nops then [] else [C_MALFORMED]
@@ -195,13 +198,14 @@ Definition sort_by {A} (key : A -> N) (l : list A) : list A := fold_right (inser
 
 Definition pair_key (p : N * N) : N := fst p * 65536 + snd p.
 Definition ev_key (e : ev) : N :=
-  e_sip e * 4 + match e_ports e with p :: _ => fst p | [] => 3 end.
+  ((e_sip e * 4294967296 + e_dip e) * 281474976710656 + e_smac e) * 4
+  + match e_ports e with p :: _ => fst p | [] => 3 end.
 Definition canon_ev (e : ev) : ev :=
   E (e_smac e) (e_dmac e) (e_sip e) (e_dip e) (sort_by pair_key (e_ports e)).
 Definition canon (t : list ev) : list ev := sort_by ev_key (map canon_ev t).
 
 Definition ngroups (c : scase) : nat :=
-  length (nodup_p (map (fun k => (k_sip k, proto_of (k_kind k)))
+  length (nodup_p (map (fun k => (k_sip k * 4294967296 + k_dip k, proto_of (k_kind k)))
                        (flat_map (knocks_of_probe None false) (s_probes c)))).
 
 Definition mismatches (cs : list scase) : list N :=
@@ -237,34 +241,44 @@ Definition expected_pair (p : probe) : option (N * N) :=
 Fixpoint opts {A} (l : list (option A)) : list A :=
   match l with [] => [] | Some x :: r => x :: opts r | None :: r => opts r end.
 
-Definition expected_of (src : N) (ps : list probe) : list (N * N) :=
-  nodup_p (opts (map expected_pair (filter (fun p => p_src p =? src) ps))).
+(* everything is judged per (source, destination): sd = (source index, sensor address index) *)
+Definition expected_of (sd : N * N) (ps : list probe) : list (N * N) :=
+  nodup_p (opts (map expected_pair
+                     (filter (fun p => (p_src p =? fst sd) && (p_dst p =? snd sd)) ps))).
 
-Definition from_src (src : N) (e : ev) : bool :=
-  (e_smac e =? src_mac src) && (e_sip e =? src_ip src) && (e_dmac e =? dst_mac) && (e_dip e =? dst_ip).
+Definition from_src (sd : N * N) (e : ev) : bool :=
+  (e_smac e =? src_mac (fst sd)) && (e_sip e =? src_ip (fst sd)) &&
+  (e_dmac e =? dst_mac) && (e_dip e =? dst_ip_of (snd sd)).
 
-Definition listed (src : N) (evs : list ev) : list (N * N) :=
-  flat_map e_ports (filter (from_src src) evs).
+Definition listed (sd : N * N) (evs : list ev) : list (N * N) :=
+  flat_map e_ports (filter (from_src sd) evs).
 
 Definition count_p (x : N * N) (l : list (N * N)) : nat := length (filter (pair_eqb x) l).
 
-Definition src_sigs (src : N) (c : scase) : list N :=
-  let ex := expected_of src (s_probes c) in
-  let all := listed src (concat (s_ticks c)) in
-  let first := listed src (hd [] (s_ticks c)) in
+(* sigs of one (source, destination) given all events and those of the tick in which the
+   report is due *)
+Definition sd_sigs (big : bool) (ps : list probe) (all first : list ev) (sd : N * N) : list N :=
+  let ex := expected_of sd ps in
+  let la := listed sd all in
+  let lf := listed sd first in
   let inl x l := existsb (pair_eqb x) l in
-  let big := Nat.leb 3 (ngroups c) in
-  (if existsb (fun x => (fst x =? 0) && negb (inl x all)) ex then [SIG_TCP_NEVER] else []) ++
-  (if existsb (fun x => negb (fst x =? 0) && negb (inl x all)) ex then [SIG_MISSING] else []) ++
-  (if existsb (fun x => Nat.ltb 1 (count_p x all)) all then [if big then SIG_TWICE else SIG_TWICE_LE2] else []) ++
-  (if existsb (fun x => inl x all && negb (inl x first)) ex then [if big then SIG_LATE else SIG_LATE_LE2] else []) ++
-  (if existsb (fun x => negb (inl x ex)) all then [SIG_SPURIOUS] else []).
+  (if existsb (fun x => (fst x =? 0) && negb (inl x la)) ex then [SIG_TCP_NEVER] else []) ++
+  (if existsb (fun x => negb (fst x =? 0) && negb (inl x la)) ex then [SIG_MISSING] else []) ++
+  (if existsb (fun x => Nat.ltb 1 (count_p x la)) la then [if big then SIG_TWICE else SIG_TWICE_LE2] else []) ++
+  (if existsb (fun x => inl x la && negb (inl x lf)) ex then [if big then SIG_LATE else SIG_LATE_LE2] else []) ++
+  (if existsb (fun x => negb (inl x ex)) la then [SIG_SPURIOUS] else []).
 
-Definition all_srcs : list N := [0; 1; 2; 3].
+(* the (source, destination) pairs probed, and - for spurious events - every pair of a known
+   source with a sensor address *)
+Definition sds_of (ps : list probe) : list (N * N) := nodup_p (map (fun p => (p_src p, p_dst p)) ps).
+Definition all_dsts : list N := [0; 1; 2].
+Definition sds_all (ps : list probe) : list (N * N) :=
+  flat_map (fun s => map (fun d => (s, d)) all_dsts) (nodup_n (map p_src ps)).
 
 Definition case_sigs (c : scase) : list N :=
-  nodup_n (flat_map (fun s => src_sigs s c) all_srcs ++
-           (if existsb (fun e => negb (existsb (fun s => from_src s e) all_srcs)) (concat (s_ticks c))
+  let all := concat (s_ticks c) in
+  nodup_n (flat_map (sd_sigs (Nat.leb 3 (ngroups c)) (s_probes c) all (hd [] (s_ticks c))) (sds_all (s_probes c)) ++
+           (if existsb (fun e => negb (existsb (fun sd => from_src sd e) (sds_all (s_probes c)))) all
             then [SIG_SPURIOUS] else [])).
 
 Definition violations (cs : list scase) : list (N * N) :=
@@ -386,3 +400,81 @@ Definition tags (cs : list fcase) : list (N * N) :=
      1 + N.min 200 (N.of_nat (length (knocks_of (rx_frames (f_me c) [] (f_frames c))))) end)) cs.
 
 End F.
+
+(* ================================================================ Q *)
+(* bursts larger than the knock queue while the detector is held inside events.Send of an
+   earlier group's report (a slow pusher): first the gate probes, the tick that reports them
+   (the detector blocks there), then the burst, then the detector is released *)
+Module Q.
+Import S.
+
+Record qcase := mkQC {
+  qc_id : N;
+  qc_cap : N;                    (* capacity of knockChan *)
+  qc_gate : list probe;          (* probes whose report the detector is held in *)
+  qc_burst : list probe;
+  qc_blocked : N;                (* producers found blocked in their send once all had run *)
+  qc_pre : list ev;              (* events delivered up to the release *)
+  qc_ticks : list (list ev) }.   (* events of the ticks after the burst *)
+
+Definition knocks_of_probes (ps : list probe) : list knock := flat_map (knocks_of_probe None false) ps.
+
+(* the model: every knock of the burst reaches the detector (blocking send), in some order *)
+Definition model_ticks (c : qcase) : list (list ev) :=
+  let evs := map (fun k => DKnock k 0%Z) (knocks_of_probes (qc_gate c)) ++ [DTick 5000%Z] ++
+             map (fun k => DKnock k 5000%Z) (knocks_of_probes (qc_burst c)) ++
+             map (fun i => DTick (5000 * Z.of_nat (S (S i)))%Z) (seq 0 (length (qc_ticks c))) in
+  map (map ev_of_report) (fst (run evs det0)).
+
+(* with the consumer stopped and every producer scheduled, exactly the knocks beyond the
+   capacity are blocked (q_step: a send completes iff the queue has room) *)
+Definition model_blocked (c : qcase) : N :=
+  let st := q_run (N.to_nat (qc_cap c))
+                  (map QSend (seq 0 (length (knocks_of_probes (qc_burst c)))))
+                  (q_init (knocks_of_probes (qc_burst c))) in
+  N.of_nat (length (osomes (q_pending st))).
+
+Definition ev_key3 (e : ev) : N :=
+  ((e_sip e * 4294967296 + e_dip e) * 281474976710656 + e_smac e) * 4
+  + match e_ports e with p :: _ => fst p | [] => 3 end.
+Definition canon3 (t : list ev) : list ev := sort_by ev_key3 (map canon_ev t).
+
+Definition mismatches (cs : list qcase) : list N :=
+  map qc_id (filter (fun c =>
+    negb (qc_blocked c =? model_blocked c) ||
+    negb (list_eqb (list_eqb ev_eqb) (map canon3 (model_ticks c)) (map canon3 (qc_pre c :: qc_ticks c)))) cs).
+
+Definition SIG_Q_LOST := 12.      (* a probe sent while the queue was full is in no portscan event *)
+Definition SIG_Q_TWICE := 13.
+Definition SIG_Q_LATE := 14.
+Definition SIG_Q_SPURIOUS := 15.
+Definition SIG_Q_GATE := 16.      (* the gate group itself is not reported exactly once *)
+
+Definition remap (s : N) : N :=
+  if (s =? SIG_TCP_NEVER) || (s =? SIG_MISSING) then SIG_Q_LOST
+  else if (s =? SIG_TWICE) || (s =? SIG_TWICE_LE2) then SIG_Q_TWICE
+  else if (s =? SIG_LATE) || (s =? SIG_LATE_LE2) then SIG_Q_LATE
+  else SIG_Q_SPURIOUS.
+
+Definition case_sigs (c : qcase) : list N :=
+  let all := qc_pre c ++ concat (qc_ticks c) in
+  let ps := qc_gate c ++ qc_burst c in
+  nodup_n (
+    (* the gate's own (source, destination) pairs are due before the release *)
+    map (fun _ => SIG_Q_GATE)
+        (flat_map (sd_sigs false (qc_gate c) (qc_pre c) (qc_pre c)) (sds_of (qc_gate c))) ++
+    (* the burst's in the first tick after it *)
+    map remap (flat_map (sd_sigs true (qc_burst c) (concat (qc_ticks c)) (hd [] (qc_ticks c)))
+                        (sds_of (qc_burst c))) ++
+    (if existsb (fun e => negb (existsb (fun sd => from_src sd e) (sds_all ps))) all
+     then [SIG_Q_SPURIOUS] else [])).
+
+Definition violations (cs : list qcase) : list (N * N) :=
+  flat_map (fun c => map (fun s => (qc_id c, s)) (case_sigs c)) cs.
+
+(* tag: 1 = burst fits the queue, 2 = larger than the queue *)
+Definition tags (cs : list qcase) : list (N * N) :=
+  map (fun c => (qc_id c,
+    if qc_cap c <? N.of_nat (length (knocks_of_probes (qc_burst c))) then 2 else 1)) cs.
+
+End Q.
